@@ -101,12 +101,18 @@ fn cons_op<Q: BQ>(q: &Q, c: char) -> QOp {
 }
 
 /// concurrent member: producers push while the consumer runs `cons`; then everything is drained
-fn member<Q: BQ>(e: &'static Engine, off: usize, prods: &[usize], cons: &str, drop_left: bool) {
+/// `pre` values (ids 100..) are in the queue when the window opens: the consumer lags behind the producers by up to
+/// several blocks, so that a bulk_pop ends at a block boundary while the producers allocate / recycle blocks
+fn member<Q: BQ>(e: &'static Engine, off: usize, pre: usize, prods: &[usize], cons: &str, drop_left: bool) {
     static H: Hist = Hist::new();
     let q = Arc::new(Q::new());
     warm_up(&*q, off);
+    let init: Vec<u32> = (0..pre).map(|k| 100 + k as u32).collect();
+    for id in init.iter() {
+        q.push(Tracked::new(*id));
+    }
     e.begin();
-    let mut pushed: Vec<u32> = vec![];
+    let mut pushed: Vec<u32> = init.clone();
     for (p, n) in prods.iter().enumerate() {
         let q = q.clone();
         let n = *n;
@@ -130,21 +136,22 @@ fn member<Q: BQ>(e: &'static Engine, off: usize, prods: &[usize], cons: &str, dr
     if drop_left {
         // the queue is dropped with whatever is left in it
         let recs = H.take();
-        check_lin(e, &recs);
+        check_lin(e, &recs, &init);
         drop(q);
         check_drops(e, pushed.iter().cloned().chain(std::iter::once(WARM)));
         e.note(&obs(&recs));
         return;
     }
-    // sequential drain, still recorded
+    // sequential drain, still recorded (in bulks when many values are left: the checker takes at most 24 records)
     loop {
-        match H.run(0, || cons_op(&*q, 'P')) {
+        match H.run(0, || cons_op(&*q, if pre > 0 { 'B' } else { 'P' })) {
             QOp::Pop(None) => break,
+            QOp::Bulk(v) if v.is_empty() => break,
             _ => {}
         }
     }
     let recs = H.take();
-    check_lin(e, &recs);
+    check_lin(e, &recs, &init);
     // everything pushed came out exactly once
     let mut got: Vec<u32> = vec![];
     for r in recs.iter() {
@@ -163,7 +170,7 @@ fn member<Q: BQ>(e: &'static Engine, off: usize, prods: &[usize], cons: &str, dr
     }
     // per producer order
     for p in 0..prods.len() {
-        let mine: Vec<u32> = got.iter().cloned().filter(|v| (*v as usize - 1) / 10 == p).collect();
+        let mine: Vec<u32> = got.iter().cloned().filter(|v| *v < 100 && (*v as usize - 1) / 10 == p).collect();
         if mine.windows(2).any(|w| w[0] > w[1]) {
             e.fail("producer_order", &format!("values of producer {} out of order: {:?}", p, mine));
         }
@@ -173,8 +180,8 @@ fn member<Q: BQ>(e: &'static Engine, off: usize, prods: &[usize], cons: &str, dr
     e.note(&obs(&recs));
 }
 
-fn check_lin(e: &Engine, recs: &[Rec]) {
-    if linearizable_fifo(recs, &[]).is_none() {
+fn check_lin(e: &Engine, recs: &[Rec], init: &[u32]) {
+    if linearizable_fifo(recs, init).is_none() {
         e.fail("linearizable_fifo", &format!("history is not linearizable to a FIFO queue: {}", fmt_hist(recs)));
     }
 }
@@ -281,7 +288,12 @@ fn mk<Q: BQ>(off: usize, prods: &'static [usize], cons: &'static str, drop_left:
         cons,
         if drop_left { ".dropleft" } else { "" }
     );
-    Scenario::new("C03", Q::KIND, name, Arc::new(move |e| member::<Q>(e, off, prods, cons, drop_left))).fine()
+    Scenario::new("C03", Q::KIND, name, Arc::new(move |e| member::<Q>(e, off, 0, prods, cons, drop_left))).fine()
+}
+
+fn mk_lag<Q: BQ>(off: usize, pre: usize, prods: &'static [usize], cons: &'static str) -> Scenario {
+    let name = format!("{}.off{}.pre{}.prod{}.cons{}", Q::KIND, off, pre, prods.iter().map(|n| n.to_string()).collect::<Vec<_>>().join("_"), cons);
+    Scenario::new("C03", Q::KIND, name, Arc::new(move |e| member::<Q>(e, off, pre, prods, cons, false))).fine()
 }
 
 pub fn build(quick: bool) -> Vec<Scenario> {
@@ -316,6 +328,22 @@ pub fn build(quick: bool) -> Vec<Scenario> {
             v.push(mk::<S>(off, &[3], cons, false).bound(d + 1));
         }
         v.push(mk::<S>(off, &[3], "P", true).bound(d + 1));
+    }
+    // a lagging consumer: the queue holds one to two blocks when the window opens, the bulk_pop ends at a block boundary
+    // while the producer finishes its tail block (spsc: takes a consumed block back from the node cache)
+    for (off, pre) in [(0, 2 * sb - 1), (0, sb), (sb - 1, sb + 1), (0, 3 * sb - 1)] {
+        if quick && pre == 3 * sb - 1 {
+            continue;
+        }
+        v.push(mk_lag::<S>(off, pre, &[3], "BB").bound(d));
+        v.push(mk_lag::<S>(off, pre, &[2], "BP").bound(d));
+    }
+    for (off, pre) in [(0, mb - 1), (mb - 1, 1), (0, 2 * mb - 1)] {
+        if quick && pre == 2 * mb - 1 {
+            continue;
+        }
+        v.push(mk_lag::<M>(off, pre, &[1, 1], "BB").bound(d));
+        v.push(mk_lag::<M>(off, pre, &[2], "BP").bound(d));
     }
     if !quick {
         // both allocator modes and the descending base policy on the boundary members
